@@ -243,7 +243,7 @@ SCENARIOS = {
 }
 
 
-def h_preempt(ctx, scenario, hub, bound):
+def h_preempt(ctx, scenario, hub, bound, nondefault=False):
   """Foreign threads, the scheduler thread (real Scheduler.run) and, in threaded mode, the select-hub thread (real _threadProc)
   are real threads run one source line of recoco.py at a time; the interleaving is chosen by solver variables, all interleavings
   with <= bound preemptions are explored.  Lock/Event/select/pinger are models (props/ilv.py)."""
@@ -269,8 +269,16 @@ def h_preempt(ctx, scenario, hub, bound):
     R.time = clock; R.select = ilv.MSelect(ctl, clock)
     U.makePinger = lambda: ilv.MPinger(); R.pox.lib.util.makePinger = U.makePinger
     R.threading = tm; R.Thread = tm.Thread
-    s = R.Scheduler(isDefaultScheduler=True, startInThread=False, threaded_selecthub=(hub == 'threaded'))
-    R.defaultScheduler = s; s._random = lambda: 0
+    if nondefault:
+      # the scheduler under test is not the process-wide default one (another, idle scheduler is): schedule()/callLater()/synchronized() on it must
+      # still hand over to *its* thread
+      other = R.Scheduler(isDefaultScheduler=True, startInThread=False, threaded_selecthub=False)
+      R.defaultScheduler = other
+      s = R.Scheduler(isDefaultScheduler=False, startInThread=False, threaded_selecthub=(hub == 'threaded'))
+    else:
+      s = R.Scheduler(isDefaultScheduler=True, startInThread=False, threaded_selecthub=(hub == 'threaded'))
+      R.defaultScheduler = s
+    s._random = lambda: 0
     tick = [0]
     def now():
       tick[0] += 1; return tick[0]
@@ -295,7 +303,7 @@ def h_preempt(ctx, scenario, hub, bound):
         while True:
           yield False
           truns.append(now())
-      T = R.Task(target=sleeper); T.start(s)
+      T = R.Task(target=sleeper); T.start(s, fast=True)
     def wake():
       w = [now(), False]; wakes.append(w)
       s.schedule(T)
@@ -305,19 +313,19 @@ def h_preempt(ctx, scenario, hub, bound):
         for i in range(3):
           klog.append((i, insec[0]))
           yield 0
-      R.Task(target=stepper).start(s)
+      R.Task(target=stepper).start(s, fast=True)
     if 'W' in extras:
       def cowake():
         yield 0
         wake()
         yield 0
-      R.Task(target=cowake).start(s)
+      R.Task(target=cowake).start(s, fast=True)
     if 'C' in extras:
       def cocall():
         yield 0
         submit('coop')
         yield 0
-      R.Task(target=cocall).start(s)
+      R.Task(target=cocall).start(s, fast=True)
     def foreign(name, prog):
       for ch in prog:
         if ch == 'c': submit(name)
@@ -416,6 +424,7 @@ def obligations(tier):
   idle_plans = [''.join(p) for n in (1, 2, 3) for p in itertools.product('BWCTI', repeat=n) if 'I' in p]
   if thorough: idle_plans += [''.join(p) for p in itertools.product('BWCTI', repeat=4) if p.count('I') >= 1]
   pre = [dict(scenario=sc, hub=h, bound=1) for sc in SCENARIOS for h in ('inline', 'threaded')]
+  pre += [dict(scenario=sc, hub='threaded', bound=1, nondefault=True) for sc in ('wake1+1', 'call+wake', 'sync+call')]
   if thorough: pre += [dict(scenario=sc, hub=h, bound=2) for sc in ('call1+1', 'wake1+1', 'sync', 'call+wake') for h in ('inline', 'threaded')]
   BOUNDS[tier] = dict(preempt_scenarios={k: v for k, v in SCENARIOS.items()}, preemption_bound="1 for all scenarios x {inline, threaded}" + ("; 2 for call1+1, wake1+1, sync, call+wake" if thorough else ""), lock_programs=len(lp), calllater_plans=cl, idle_plans="all sequences over {B,W,C,T,I} with an idle, length <= %d" % (4 if thorough else 3), legend="c callLater(symbolic: raises?), C callLater preempted inside its wake-up ping (scheduler runs to quiescence there), y scheduler step, w schedule(sleeping task)")
   return [
